@@ -26,6 +26,16 @@ props = [json.loads(l)["id"] for l in open(f"{V}/properties.jsonl")]
 na_reasons = json.load(open(f"{V}/meta/not_applicable.json")) if os.path.exists(f"{V}/meta/not_applicable.json") else {}
 na = [{"property_id": p, "reason": na_reasons.get(p, "check not built yet in this development (no theorem+correspondence committed); not claimed")}
       for p in props if p not in claimed]
+
+def has_translator(pid):
+    """served by /verif/translators iff one of the property's harness modules imports from it"""
+    import glob, re
+    for f in glob.glob(f"{V}/harness/{pid.lower()}*.py"):
+        if re.search(r"^\s*(from translators|import translators)", open(f).read(), flags=re.M):
+            return True
+    return False
+
+
 man = {
     "version": 1,
     "setup_cmd": "./setup.sh",
@@ -33,7 +43,7 @@ man = {
               "baseline_off_cmd": "python3 /verif/tools/baseline_check.py", "source_commits": [], "add_only": True},
     "engines": [
         {"name": "coq-model", "path": "/verif/coq", "serves_properties": sorted(claimed), "kind_free_text": "Rocq/Coq 8.16.1 models, proofs and property theorems; generated obligations and case files evaluated with vm_compute"},
-        {"name": "translators", "path": "/verif/translators", "serves_properties": sorted(claimed), "kind_free_text": "fail-closed Python translators regenerating model fragments from /repo on every run"},
+        {"name": "translators", "path": "/verif/translators", "serves_properties": sorted(c for c in claimed if has_translator(c)), "kind_free_text": "fail-closed Python translators regenerating model fragments from /repo on every run"},
         {"name": "py-harness", "path": "/verif/harness", "serves_properties": sorted(claimed), "kind_free_text": "correspondence harness driving real Splink on DuckDB/SQLite (Spark in thorough tiers where stated)"},
     ],
     "checks": checks,
